@@ -16,17 +16,19 @@ CONFIGS = {
     # single requests only, stamps far apart, up to 5 requests: purges that really remove tombstones, with storage failures
     # put_many / del_many shapes (several keys, one stamp) over four keys: purges of three and more tombstones with
     # partial storage failures
-    "K8": dict(Keys={1, 2, 3, 4}, Nodes={1}, Times={0, 3, 4}, MaxReqs=4, WithBulk=False, WithUniform=True, WithCrash=False),
+    "K8": dict(Keys={1, 2, 3}, Nodes={1}, Times={0, 1}, MaxReqs=2, WithBulk=False, WithUniform=True, WithCrash=False),
+    # the node starts on a storage that already holds three tombstones: purges of three tombstones with every partial failure
+    "K9": dict(Keys={1, 2, 3, 4}, Nodes={1}, Times={0, 3, 4}, MaxReqs=3, WithBulk=False, WithCrash=False, InitTombs={1, 2, 3}),
     "K7": dict(Keys={1, 2}, Nodes={1}, Times={0, 3, 4}, MaxReqs=5, WithBulk=False, WithCrash=False),
 }
-TIERS = {"quick": ["K1", "K3", "K5", "K7"], "thorough": ["K1", "K2", "K3", "K4", "K5", "K6", "K7"]}
+TIERS = {"quick": ["K1", "K3", "K5", "K7", "K8", "K9"], "thorough": ["K1", "K2", "K3", "K4", "K5", "K6", "K7", "K8", "K9"]}
 INVARIANTS = ["C02_Agree", "C07_AckedVisible", "WellFormedInv"]
 PROPERTIES = ["C07_RebuildExact"]
 
 
 def _one(ctx, binary, name):
     c = CONFIGS[name]
-    consts = dict(dict(Sources={0, 1}, F=2, FixD6=True, SortBulk=True, WithCrash=True, WithBulk=True, WithUniform=False), **c)
+    consts = dict(dict(Sources={0, 1}, F=2, FixD6=True, SortBulk=True, WithCrash=True, WithBulk=True, WithUniform=False, InitTombs=set()), **c)
     mc_cfg = vlib.cfg_text(constants=dict(consts, EmitEdges=False), invariants=INVARIANTS, properties=PROPERTIES, view="MCView")
     mc, text = vlib.run_tlc(ctx, "Keyspace", mc_cfg, "mc_" + name, workers=5, extra=["-coverage", "1"], timeout=2400)
     mc_ok = vlib.require_clean_mc(ctx, mc, text, "Keyspace/" + name)
@@ -34,7 +36,9 @@ def _one(ctx, binary, name):
     out = ctx.path("replay_%s.json" % name)
     gen, gtext = vlib.tlc_pipe(ctx, "Keyspace", gen_cfg, "gen_" + name,
                                [binary, "replay-keyspace", "--input", "-", "--out", out, "--passthrough", ctx.path("gen_%s.tlc" % name),
-                                "--f", "2", "--keys", ",".join(map(str, sorted(c["Keys"])))], timeout=4000)
+                                "--f", "2", "--keys", ",".join(map(str, sorted(c["Keys"]))),
+                                "--init-tombs", ",".join(map(str, sorted(c.get("InitTombs", [])))),
+                                "--init-node", str(min(c["Nodes"]))], timeout=4000)
     if gen["consumer_exit"] != 0 or not os.path.exists(out):
         raise vlib.ToolError("keyspace replayer failed on config %s (exit %s)" % (name, gen["consumer_exit"]))
     if gen["distinct"] is None or gen["errors"]:
